@@ -51,6 +51,13 @@ def run(repo, rep):
               'request; response command field = request | 8000H')
     rep.assume('an application handler signals failure only through EventHandlingError (documented in exceptions.py); any '
                'other exception is not the library\'s to handle')
+    rep.rule('C17.P9', 'every response has a command set of its own: a message constructed over another message\'s command set and then '
+             'written to takes a deep copy -- the same Dataset, or Dataset.copy() / copy.copy() of it, holds the same DataElement objects, '
+             'and the property setters change those in place, so responses queued for sending change with the next one', 1)
+    from ..svc_model import shared_command_set_problems
+    p9_, n9_ = shared_command_set_problems(repo)
+    rep.check(not p9_, 'C17.P9', 'sopclass:responses:own-command-set', sc.relpath,
+              '%d message(s) constructed over an existing command set, none shares elements it writes' % n9_, '; '.join(p9_[:3]))
     rep.rule('C17.P1', 'each response is sent on the presentation context the request arrived on', 7)
     rep.rule('C17.P2', 'Message ID Being Responded To <- the request\'s Message ID', 7)
     rep.rule('C17.P3', 'Affected SOP Class UID <- the request\'s SOP class (or the context\'s abstract syntax); Affected SOP '
@@ -89,7 +96,8 @@ def run(repo, rep):
         for e, s in sends:
             tok = e.args[0]
             cls = message_class(repo, tok)
-            fl = e.fields(tok)
+            from ..svc_model import response_fields
+            fl = response_fields(e, s, tok)
             # P1
             if e.args[1] != ctxterm:
                 p1.append('%s sent on context %s, the request arrived on %s' % (cls.name, e.args[1], ctxterm))
@@ -156,6 +164,9 @@ def run(repo, rep):
         p6 = []
         n_norm = 0
         for s, how in a.finals:
+            if how == 'raise:AttributeError':
+                p6.append('a path ends with AttributeError before the final response is sent: a generator-only method (close / send / '
+                          'throw) is called on the iterable the application handler returned, which need not be a generator')
             if how.startswith('raise'):
                 continue
             n_norm += 1
